@@ -103,6 +103,9 @@ def expectation_stage(rep, tier, seed, label, want=lambda meta: True):
                     if m: res = m.group(1)
                 ok = io["kind"].startswith("return") and out == meta["expect_out"] and res == meta["expect_res"]
                 h.cleanup(run)
+                if io["kind"] == "timeout":
+                    st["timeouts"] = st.get("timeouts", 0) + 1      # the clock, not the code: counted, not judged
+                    continue
                 if ok:
                     st["agree"] += 1
                 else:
